@@ -167,11 +167,11 @@ def run(prop, tier, seed, rep):
     bindir = core.build_apps()
     scheds = model_schedules(tier, rep)
     jobs = []
-    pick = scheds if tier == "thorough" else rng.sample(scheds, min(len(scheds), 40))
+    pick = rng.sample(scheds, min(len(scheds), 40 if tier == "quick" else 1500))
     for i, (feed, sched) in enumerate(pick):
         segs, sent = concretise(rng, feed, sched)
         jobs.append(("1090", segs, sent, f"model-{feed}", "hold"))
-        if tier == "thorough" or i % 5 == 0:
+        if i % 5 == 0:
             jobs.append(("radar", segs, sent, f"model-{feed}", "hold"))
     # malformed lines between valid ones, random segmentation
     for i in range(10 if tier == "quick" else 300):
